@@ -130,6 +130,27 @@ def check_neg(case):
             if f:
                 return f
         return None
+    if fam == 'orphan':
+        # two extra cells no root reaches, the first of them carrying a dangling / backward / self reference: "for dangling,
+        # backward or self references it raises an error" does not depend on whether a root leads to the offending cell
+        e = case['enc']
+        roots = [cells[-1]]
+        order = refboc.linear_extension(roots, e.get('prio') or [0])
+        leaf = rc.RCell('10100101' + format(case['pos'][0] % 256, '08b'), [], False)
+        holder = rc.RCell('1100' + format(case['pos'][1] % 16, '04b'), [leaf], False)
+        known = {c.repr_hash() for c in order}
+        if leaf.repr_hash() in known or holder.repr_hash() in known:
+            return None
+        order = order + [holder, leaf]
+        n = len(order)
+        ci = n - 2
+        how = case['pos'][0] % 3
+        v = (n + case['pos'][1] % 5) if how == 0 else ci if how == 1 else case['pos'][1] % ci
+        size = min(4, refboc.min_bytes(max(n, v + 1)) + e.get('size_extra', 0))
+        magic = e['magic'] if order[0] is roots[0] else 'generic'
+        data = refboc.encode(roots, magic=magic, size=size, has_idx=bool(e.get('idx')) or magic != 'generic',
+                             has_crc=bool(e.get('crc')) or magic == 'idx_crc', order=order, ref_override={(ci, 0): v})
+        return _must_raise(data, f'{("dangling", "self", "backward")[how]}-reference:unreachable cell {ci} ref 0 -> {v} (cells={n})')
     if fam in ('dangling', 'backward', 'self'):
         data0, roots, order, size = _encode(case, cells)
         n = len(order)
@@ -261,6 +282,24 @@ def enum_raw(tier):
         yield {'raw': (b + b'\x00').hex()}
 
 
+def enum_special_bags(tier):
+    """(a) maximal cells (1023 / 1016 / 993 bits, 1..4 references) of every level mask 1..7 WITH stored hashes (up to 4 hashes +
+    4 depths in front of the data) and the widest reference indexes: the longest cell serialisations the format allows;
+    (b) CRC-protected bags whose length before the checksum is exactly 65 537, 131 073, 2^20 bytes (thorough: more)"""
+    base = {'magic': 'generic', 'size_extra': 0, 'off_extra': 0, 'idx': False, 'cache': False, 'crc': True, 'hashes': [], 'cachesel': [], 'prio': [0]}
+    for m in range(1, 8):
+        for nbits in (1023, 1016, 993):
+            for nrefs in (1, 2, 4):
+                spec = [{'k': 'P', 'm': m, 's': '%08x' % (m * 100 + nrefs), 'd': [1, 2, 3]}, {'k': 'o', 'b': [17, 2, m], 'r': []}]
+                spec.append({'k': 'o', 'b': [nbits, 2, m * 7 + nrefs], 'r': [0] + [1] * (nrefs - 1)})
+                for extra in (0, 3):
+                    for magic in ('generic', 'idx'):
+                        enc = dict(base, size_extra=extra, hashes=[0, 1, 2], magic=magic, crc=bool(extra))
+                        yield {'spec': spec, 'enc': enc, 'roots': [-1]}
+    for total in (65537, 131073, 1 << 20) + ((3 * (1 << 18), (1 << 20) + 1) if tier != 'quick' else ()):
+        yield {'spec': boccases.bag_of_total_length(total), 'enc': dict(base), 'roots': [-1]}
+
+
 def st_enc():
     return st.fixed_dictionaries({
         'magic': st.sampled_from(['generic', 'generic', 'generic', 'idx', 'idx_crc']),
@@ -286,7 +325,7 @@ def strat_neg(tier):
                       dag.st_ord_dag(max_nodes=30, max_len=300))
     return st.fixed_dictionaries({'spec': small, 'enc': st_enc(), 'roots': st_roots(),
                                   'fam': st.sampled_from(['prefix', 'extend', 'bitflip', 'dangling', 'backward', 'self',
-                                                          'dangling', 'backward', 'self']),
+                                                          'dangling', 'backward', 'self', 'orphan', 'orphan']),
                                   'pos': st.lists(st.integers(0, 10 ** 6), min_size=2, max_size=40)})
 
 
@@ -322,6 +361,9 @@ def nt(case):
 
 SUBCHECKS = [
     Sub('foreign-encodings', check_pos, strategy=strat_pos, classify=classify, nontrivial=nt, n=(1500, 40000), shards=(16, 32)),
+    Sub('maximal-cells-with-stored-hashes-and-exact-length-bags', check_pos, enum=enum_special_bags, classify=classify, nontrivial=nt, shards=(16, 16),
+        case_cpu_s=300, note='1023/1016/993-bit cells x masks 1..7 x 1/2/4 refs with stored hashes, 1- and 4-byte reference indexes; CRC-protected '
+                             'bags of exactly 65 537 / 131 073 / 2^20 bytes before the checksum'),
     Sub('corruptions', check_neg, strategy=strat_neg, classify=classify, nontrivial=nt, n=(900, 20000), shards=(16, 32), case_cpu_s=60),
     Sub('byte-mutations-one-directional', check_fuzz, strategy=strat_fuzz, classify=classify, nontrivial=nt, n=(1500, 60000), shards=(8, 32)),
     Sub('raw-bytes', check_raw, enum=enum_raw, shards=(2, 2), note='plain byte strings: the campaign corpus and its 1-byte truncations/extensions; '
